@@ -9,7 +9,7 @@ DEFAULT_WEIGHTS = {
     "advance": 10, "stake": 14, "unstake": 9, "submit": 7, "deliver": 6, "rewards": 5, "withdraw": 8,
     "ack": 10, "timeout": 3, "recover": 5, "stray": 2, "breaker": 1, "resume": 2, "update_config": 2,
     "validators": 1, "ownership": 3, "fee_withdraw": 2, "donate": 1, "unauthorized": 4, "garbage": 1,
-    "outage": 1, "longrun": 0,
+    "outage": 1, "longrun": 0, "unknown": 0,
 }
 
 
@@ -154,6 +154,42 @@ class Gen:
                 h.event({"ev": "advance", "dt": str(due - h.time + r.choice([0, 1, NS])), "dh": 1})
             h.event(exec_ev(r.choice(su.users), {"submit_batch": {}}, []))
         return [exec_ev(u, {"liquid_unstake": {}}, [coin(su.lst, 1)])] if h.bal(u, su.lst) > 0 else self.ev_advance()
+
+    def ev_unknown(self):
+        """a message variant the source declares and the model does not know (only when the interface theorem is
+        broken): fields filled by type, from any sender, with or without funds"""
+        from .iface import unknown_exec_variants
+        r = self.rng
+        su = self.su
+        vs = unknown_exec_variants()
+        if not vs:
+            return self.ev_unauthorized()
+        tag, fields = r.choice(vs)
+
+        def val(ty):
+            if ty.startswith("Option<"):
+                return None if r.random() < 0.4 else val(ty[7:-1])
+            if ty.startswith("Vec<"):
+                return [] if r.random() < 0.5 else [val(ty[4:-1])]
+            if ty in ("String", "Addr"):
+                return r.choice(su.users + [su.admin, su.contract, su.treasury, su.staker, su.native_users[0]])
+            if ty in ("Uint128", "u128"):
+                return str(r.choice([0, 1, 1000, 10 ** 6]))
+            if ty in ("u64", "u32", "u8", "usize"):
+                return r.choice([0, 1, 2, 10])
+            if ty == "bool":
+                return r.random() < 0.5
+            if ty == "Coin":
+                return coin(r.choice([STAKED, su.lst]), r.choice([1, 1000]))
+            return None
+        msg = {tag: {f: val(t) for f, t in fields}}
+        sender = r.choice(su.users + [su.admin] + su.monitors + [su.contract_like])
+        funds = []
+        if r.random() < 0.3:
+            amt = r.choice([1, 1000])
+            self.ensure_funds(sender, STAKED, amt)
+            funds = [coin(STAKED, amt)]
+        return [exec_ev(sender, msg, funds)]
 
     # -- event builders; each returns a list of events (usually one) --
     def ev_advance(self):
